@@ -49,8 +49,8 @@ CLASSES = {
         dict(dom="pair/2:points*points", cond="(xi-xj)**2 <= D**2", guard="self.D != np.inf"),
     ],
     "ConvexSupportFunction": [
-        dict(dom="each:points", cond="gi*xi - fi == 0"),
-        dict(dom="each:points", cond="gi**2 <= M**2", guard="self.M != np.inf"),
+        dict(dom="each:points", cond="gi*xi - fi == 0", name="fenchel_value"),
+        dict(dom="each:points", cond="gi**2 <= M**2", guard="self.M != np.inf", name="lipschitz_continuity"),
         dict(dom="pair:points*points", cond="xj*(gi-gj) <= 0"),
     ],
     "ConvexQGFunction": [
@@ -58,8 +58,8 @@ CLASSES = {
         dict(dom="pair:stationary*points", cond="fs - fj >= gj*(xs-xj) + 1/(2*L)*gj**2"),
     ],
     "RsiEbFunction": [
-        dict(dom="pair:stationary*points", cond="gj*(xj-xs) >= mu*(xj-xs)**2"),
-        dict(dom="pair:stationary*points", cond="gj**2 <= L**2*(xj-xs)**2"),
+        dict(dom="pair:stationary*points", cond="gj*(xj-xs) >= mu*(xj-xs)**2", name="rsi"),
+        dict(dom="pair:stationary*points", cond="gj**2 <= L**2*(xj-xs)**2", name="eb"),
     ],
     "BlockSmoothConvexFunction": [
         dict(dom="blockpair:points*points", cond="fi - fj >= gj*(xi-xj) + 1/(2*L_k)*(Pk(gi)-Pk(gj))**2"),
@@ -88,13 +88,15 @@ CLASSES = {
     "NegativelyComonotoneOperator": [
         dict(dom="pair/2:points*points", cond="(gi-gj)*(xi-xj) >= -rho*(gi-gj)**2"),
     ],
+    # `name`: the key under which the condition's table of multipliers is stored and the word used in the constraint names -- given where two
+    # conditions of one family range over the same domain (the only place where two names could be exchanged without anything else changing)
     "CocoerciveStronglyMonotoneOperator": [
-        dict(dom="pair/2:points*points", cond="(gi-gj)*(xi-xj) >= beta*(gi-gj)**2"),
-        dict(dom="pair/2:points*points", cond="(gi-gj)*(xi-xj) >= mu*(xi-xj)**2"),
+        dict(dom="pair/2:points*points", cond="(gi-gj)*(xi-xj) >= beta*(gi-gj)**2", name="cocoercivity"),
+        dict(dom="pair/2:points*points", cond="(gi-gj)*(xi-xj) >= mu*(xi-xj)**2", name="strong_monotonicity"),
     ],
     "LipschitzStronglyMonotoneOperator": [
-        dict(dom="pair/2:points*points", cond="(gi-gj)*(xi-xj) >= mu*(xi-xj)**2"),
-        dict(dom="pair/2:points*points", cond="(gi-gj)**2 <= L**2*(xi-xj)**2"),
+        dict(dom="pair/2:points*points", cond="(gi-gj)*(xi-xj) >= mu*(xi-xj)**2", name="strong_monotonicity"),
+        dict(dom="pair/2:points*points", cond="(gi-gj)**2 <= L**2*(xi-xj)**2", name="lipschitz_continuity"),
     ],
     "LinearOperator": [
         dict(dom="all:points*T.points", cond="xi*vj == gi*uj"),
